@@ -18,13 +18,20 @@ ABSENT_PROGRAM = r'''
   $*["zz"] = $nosuch;
   @sum += $nosuch;
   @cnt[$nosuch] = 1;
+  @two[$a][$nosuch] = 1;
+  @two[$a][$nosuch] += $b;
+  @three[$a][$b][$nosuch] = 1;
+  @three[$a][$nosuch][$b] = 1;
+  mm[$a][$nosuch] = $b;
+  $q[$a][$nosuch] = 1;
+  $*["r"][$nosuch] = 1;
   @acc[$a] += $x;
   print json_stringify({"rec": $*, "oos": @*, "l": l, "mm": mm});
 '''
 
 
 def t3_assign_absent(rep, tier, seed):
-    """T3: assigning absent to every lvalue kind creates no key and changes nothing."""
+    """T3: assigning absent to every lvalue kind, or assigning under an absent index at any level, creates no key and changes nothing."""
     mlr, out = verif.build_mlr()
     if mlr is None:
         rep.violation("build", "mlr does not build from the current tree", {"log": out[-2000:]}, False)
@@ -45,7 +52,7 @@ def t3_assign_absent(rep, tier, seed):
     rep.coverage.setdefault("t3", {})["assign_absent_program_records"] = 3
     rep.coverage["samples"].append({"t3_program": ABSENT_PROGRAM.strip().splitlines()[:4], "stdout": p.stdout[:200]})
     if p.returncode != 0 or got != want:
-        rep.violation("spec", "assignment of an absent right-hand side is not skipped for some lvalue kind (or @acc[$a] += $x does not ignore records lacking x)",
+        rep.violation("spec", "assignment of an absent right-hand side, or under an absent index at any level, is not skipped for some lvalue kind (or @acc[$a] += $x does not ignore records lacking x)",
                       {"argv": ["mlr", "put", "-q", ABSENT_PROGRAM], "stdin": inp, "wanted": want, "observed": p.stdout[:2000], "stderr": p.stderr[:500], "exit": p.returncode}, True)
 
 
@@ -53,7 +60,7 @@ def check(tier, seed):
     return common.standard_check(
         PID, tier, seed, families=["c08"],
         trusted_extra=["the regenerated LR parser (pgpg) and the mlr binary for the T3 assignment program"],
-        rule="every exported BIF that dispatches through a 12x12 table (29 tables) x 17x17 representative operand values covering all 12 kinds (two ints, zero, two floats, both booleans, empty, two strings, bytes, array, map, function, error, JSON null, absent); commutative operators additionally evaluated in both orders; 11 unary vectors x 17 values; one DSL program assigning absent to every lvalue kind on 3 records; distinct = distinct protocol lines",
+        rule="every exported BIF that dispatches through a 12x12 table (29 tables) x 17x17 representative operand values covering all 12 kinds (two ints, zero, two floats, both booleans, empty, two strings, bytes, array, map, function, error, JSON null, absent); commutative operators additionally evaluated in both orders; 11 unary vectors x 17 values; one DSL program assigning absent to every lvalue kind, and assigning under an absent index at the first, middle and last level of oosvar/local/field lvalues, on 3 records; distinct = distinct protocol lines",
         extra=t3_assign_absent,
     )
 
